@@ -139,7 +139,19 @@ func c12service(t *testing.T, r *kernel.Run) {
 	r.Logf("service session: %d invitations, %d steps", ngroups, nsteps)
 	for step := 0; step < nsteps && !r.Failed(); step++ {
 		i := r.Pick("group", ngroups)
-		switch a := r.Pick("action", 8); {
+		switch a := r.Pick("action", 9); {
+		case a == 8: // leave the group: later invitations for that identifier are judged on their own again
+			r.Logf("step %d: leave %d (joined=%v)", step, i, joined[i])
+			_, err := svc.MultiMemberGroupLeave(ctx, &protocoltypes.MultiMemberGroupLeave_Request{GroupPk: invs[i].PublicKey})
+			r.Step()
+			if joined[i] && err == nil {
+				joined[i] = false
+				r.Fault("group_left")
+			}
+			if listed() != njoined() {
+				r.Violate("invitation", "joined-group-not-listed", "after leaving: %d groups listed for %d joined", listed(), njoined())
+				return
+			}
 		case a <= 2: // an altered copy of invitation i
 			g := proto.Clone(invs[i]).(*protocoltypes.Group)
 			what := alter(g)
